@@ -178,6 +178,66 @@ def run_compounds(acc, sname):
     acc.sample({"clause": "compound", "system": sname, "units": {"inch": "2", "hour": "-1"}})
 
 
+GS_LINES = """
+ua = [A]
+ub = [B]
+uc = [C]
+sq = 4 * ua ** 2
+cu = 8 * ua ** 3
+inv = 7 / ub
+rate = 11 * ua / ub
+big = 1000 * ua
+@system Sq
+    sq
+@end
+@system Cu
+    cu
+@end
+@system Inv
+    inv
+@end
+@system CuOld
+    cu : ua
+@end
+@system Two
+    sq
+    inv
+@end
+@system Rate
+    rate : ub
+@end
+@system Big
+    big
+    uc
+@end
+""".strip().splitlines()
+GS_UNITS = ["ua", "ub", "uc", "sq", "cu", "inv", "rate", "big"]
+
+
+def run_gensys(acc):
+    """generated systems covering every rule form: a bare rule naming a unit that is a POWER of a root unit
+    (exponent 2, 3, -1), the same with an explicit old unit, a rule that replaces a root unit by a compound unit,
+    two rules at once.  Every unit and every two-factor compound under every system, through the named-system
+    query and through the default system."""
+    M = defs.read(list(GS_LINES))
+    for sname in [None] + sorted(M.systems):
+        ureg = regs.tiny(GS_LINES, non_int_type="Fraction")
+        cases = [{n: 1} for n in GS_UNITS] + [{a: ea, b: eb} for a, b in itertools.combinations(GS_UNITS, 2) for ea, eb in ((1, 1), (1, -1), (2, -1))]
+        for units in cases:
+            acc.nt(("gensys", sname, tuple(units.items())))
+            r = check_base(acc, M, ureg, units, sname, "generated-system")
+            if r is None:
+                continue
+            f, gu = r
+            ureg2 = regs.tiny(GS_LINES, non_int_type="Fraction")
+            ureg2.default_system = sname
+            acc.ev()
+            o = call(lambda: ureg2.Quantity(1, ureg2.UnitsContainer(units)).to_base_units())
+            if o[0] != "ok" or {k: Fraction(v) for k, v in dict(o[1]._units).items()} != gu or abs(float(o[1].magnitude) - float(f)) > 1e-12 * abs(float(f)):
+                acc.violation(["generated-system", "to_base_units", "differs-from-get_base_units-of-the-default-system", str(sname)], {"system": sname, "units": {k: str(v) for k, v in units.items()}}, [str(f), {k: str(v) for k, v in gu.items()}], repr(o)[:200])
+    acc.sample({"clause": "generated-system", "systems": sorted(M.systems), "rule_forms": ["sq (= 4 ua**2)", "cu : ua", "rate : ub (= 11 ua/ub)"]})
+
+
 def run_switch(acc):
     """changing the default system takes effect on the very next query, whatever was asked before"""
     M = model()
@@ -499,7 +559,7 @@ def shards(tier, seed):
         for b in range(2):
             out.append(("units", sname, b, 2))
         out.append(("compounds", sname))
-    out += [("switch",), ("members",)]
+    out += [("switch",), ("members",), ("gensys",)]
     depth = 3 if tier == "quick" else 4
     out.append(("hist", 0, None))
     for e in GEV:
@@ -517,6 +577,8 @@ def run_shard(acc, shard, tier, seed):
         run_switch(acc)
     elif k == "members":
         run_members(acc)
+    elif k == "gensys":
+        run_gensys(acc)
     elif k == "hist":
         drv = GroupDriver()
         roots = [()] if shard[2] is None else [(tuple(shard[2]),)]
@@ -547,6 +609,8 @@ def replay(rec):
                 run_units(acc, sname, b, 2)
     elif site[0] == "switch":
         run_switch(acc)
+    elif site[0] == "generated-system":
+        run_gensys(acc)
     else:
         run_members(acc)
     sites = {tuple(v["site"]) for v in acc.violations}
